@@ -1,8 +1,10 @@
 SPECIFICATION GenSpec
 CONSTANTS
-  Idents <- MCIdents
-  Edges <- MCEdges
-  ParentOf <- MCParent
+  Idents <- GenIdents
+  Edges <- GenEdges
+  ParentOf <- GenParent
+  Fresh <- GenFresh
+  Focus = "any"
   MaxWrites = 5
   MaxOutages = 1
   AsCoded = FALSE
